@@ -102,7 +102,7 @@ pub const PROFILES: &[Profile] = &[
     },
     Profile {
         name: "C02",
-        weights: &[(Clone, 22), (Convert, 8), (Raw, 4), (Union, 3), (Thin, 4), (Inspect, 14), (Drop, 26), (Mail, 12), (Move, 1), (CreateSized, 2), (CreateSlice, 1), (Unwrap, 4), (Uniq, 3), (Cow, 3), (Shared, 12)],
+        weights: &[(Clone, 22), (Convert, 8), (Raw, 4), (Union, 3), (Thin, 4), (Inspect, 14), (Drop, 26), (Mail, 12), (Move, 1), (CreateSized, 2), (CreateSlice, 1), (Unwrap, 4), (Uniq, 3), (Cow, 3), (Shared, 12), (Swap, 3)],
         threads: &[(2, 60), (3, 30), (4, 10)],
         setup_ops: (3, 10),
         par_ops: (2, 10),
